@@ -16,8 +16,10 @@ import (
 	"io"
 	"log"
 	"math"
+	"os"
 	"sort"
 	"strings"
+	"syscall"
 
 	"github.com/hneemann/parser2"
 	"github.com/hneemann/parser2/funcGen"
@@ -28,102 +30,102 @@ func init() { register("c01", cmdC01) }
 
 // ---------- the two generator instances ----------
 
-var fgOn, fgOff *value.FunctionGenerator
+var c01FgOn, fgOff *value.FunctionGenerator
 var c01Statics map[string]bool
 
 func c01Setup() {
 	log.SetOutput(io.Discard) // the top-level recover of generated functions logs the panic and its stack
-	fgOn = value.New()
+	c01FgOn = value.New()
 	fgOff = value.New()
 	fgOff.SetOptimizer(nil)
 	c01Statics = map[string]bool{}
-	for _, f := range fgOn.VerifStaticFunctions() {
+	for _, f := range c01FgOn.VerifStaticFunctions() {
 		c01Statics[f.Name] = true
 	}
 }
 
 // ---------- the parser's AST as a Coq term (with the annotations the generator reads) ----------
 
-type dumpErr struct{ what string }
+type c01DumpErr struct{ what string }
 
 // error message texts travel to Coq only for programs that mention throw (set per case)
-var keepMessages = true
+var c01KeepMessages = true
 
-func dumpConst(v value.Value) string {
+func c01DumpConst(v value.Value) string {
 	switch c := v.(type) {
 	case value.Int:
-		return "(AConst (VInt " + coqZ(int64(c)) + "))"
+		return "(AConst (VInt " + pgCoqZ(int64(c)) + "))"
 	case value.Float:
-		return "(AConst (VFloat " + coqFloat(float64(c)) + "))"
+		return "(AConst (VFloat " + pgCoqFloat(float64(c)) + "))"
 	case value.String:
 		return "(AConst (VStr " + CoqStr(string(c)) + "))"
 	case value.Bool:
 		return "(AConst (VBool " + CoqBool(bool(c)) + "))"
 	}
-	panic(dumpErr{fmt.Sprintf("constant of type %T", v)})
+	panic(c01DumpErr{fmt.Sprintf("constant of type %T", v)})
 }
 
-func dumpList(l []parser2.AST) string {
+func c01DumpList(l []parser2.AST) string {
 	parts := make([]string, len(l))
 	for i, a := range l {
-		parts[i] = dumpAst(a)
+		parts[i] = c01DumpAst(a)
 	}
 	return CoqList(parts)
 }
 
-func dumpAst(a parser2.AST) string {
+func c01DumpAst(a parser2.AST) string {
 	switch n := a.(type) {
 	case *parser2.Const[value.Value]:
-		return dumpConst(n.Value)
+		return c01DumpConst(n.Value)
 	case *parser2.Ident:
 		return "(AIdent " + CoqStr(n.Name) + ")"
 	case *parser2.Let:
-		return "(ALet " + CoqStr(n.Name) + " " + dumpAst(n.Value) + " " + dumpAst(n.Inner) + ")"
+		return "(ALet " + CoqStr(n.Name) + " " + c01DumpAst(n.Value) + " " + c01DumpAst(n.Inner) + ")"
 	case *parser2.If:
-		return "(AIf " + dumpAst(n.Cond) + " " + dumpAst(n.Then) + " " + dumpAst(n.Else) + ")"
+		return "(AIf " + c01DumpAst(n.Cond) + " " + c01DumpAst(n.Then) + " " + c01DumpAst(n.Else) + ")"
 	case *parser2.Switch[value.Value]:
 		var cs []string
 		for _, c := range n.Cases {
-			cs = append(cs, "("+dumpAst(c.CaseConst)+", "+dumpAst(c.Value)+")")
+			cs = append(cs, "("+c01DumpAst(c.CaseConst)+", "+c01DumpAst(c.Value)+")")
 		}
-		return "(ASwitch " + dumpAst(n.SwitchValue) + " " + CoqList(cs) + " " + dumpAst(n.Default) + ")"
+		return "(ASwitch " + c01DumpAst(n.SwitchValue) + " " + CoqList(cs) + " " + c01DumpAst(n.Default) + ")"
 	case *parser2.TryCatch:
-		return "(ATry " + dumpAst(n.Try) + " " + dumpAst(n.Catch) + ")"
+		return "(ATry " + c01DumpAst(n.Try) + " " + c01DumpAst(n.Catch) + ")"
 	case *parser2.Unary:
-		return "(AUnary " + CoqStr(n.Operator) + " " + dumpAst(n.Value) + ")"
+		return "(AUnary " + CoqStr(n.Operator) + " " + c01DumpAst(n.Value) + ")"
 	case *parser2.Operate:
-		return "(AOp " + CoqStr(n.Operator) + " " + dumpAst(n.A) + " " + dumpAst(n.B) + ")"
+		return "(AOp " + CoqStr(n.Operator) + " " + c01DumpAst(n.A) + " " + c01DumpAst(n.B) + ")"
 	case *parser2.ClosureLiteral:
-		return "(AClosure " + coqNames(n.Names) + " " + dumpAst(n.Func) + " " + coqNames(n.OuterIdents) + " " + CoqBool(n.Recursive) + " " + CoqStr(n.ThisName) + ")"
+		return "(AClosure " + pgCoqNames(n.Names) + " " + c01DumpAst(n.Func) + " " + pgCoqNames(n.OuterIdents) + " " + CoqBool(n.Recursive) + " " + CoqStr(n.ThisName) + ")"
 	case *parser2.ListLiteral:
-		return "(AList " + dumpList(n.List) + ")"
+		return "(AList " + c01DumpList(n.List) + ")"
 	case *parser2.ListAccess:
-		return "(AIndex " + dumpAst(n.List) + " " + dumpAst(n.Index) + ")"
+		return "(AIndex " + c01DumpAst(n.List) + " " + c01DumpAst(n.Index) + ")"
 	case *parser2.MapLiteral:
 		var es []string
 		n.Map.Iter(func(k string, v parser2.AST) bool {
-			es = append(es, "("+CoqStr(k)+", "+dumpAst(v)+")")
+			es = append(es, "("+CoqStr(k)+", "+c01DumpAst(v)+")")
 			return true
 		})
 		return "(AMap " + CoqList(es) + ")"
 	case *parser2.MapAccess:
-		return "(AMember " + dumpAst(n.MapValue) + " " + CoqStr(n.Key) + ")"
+		return "(AMember " + c01DumpAst(n.MapValue) + " " + CoqStr(n.Key) + ")"
 	case *parser2.FunctionCall:
 		if id, ok := n.Func.(*parser2.Ident); ok && id.IsFunc {
-			return "(AStatic " + CoqStr(id.Name) + " " + dumpList(n.Args) + ")"
+			return "(AStatic " + CoqStr(id.Name) + " " + c01DumpList(n.Args) + ")"
 		}
-		return "(ACall " + dumpAst(n.Func) + " " + dumpList(n.Args) + ")"
+		return "(ACall " + c01DumpAst(n.Func) + " " + c01DumpList(n.Args) + ")"
 	case *parser2.MethodCall:
-		return "(AMethod " + dumpAst(n.Value) + " " + CoqStr(n.Name) + " " + dumpList(n.Args) + ")"
+		return "(AMethod " + c01DumpAst(n.Value) + " " + CoqStr(n.Name) + " " + c01DumpList(n.Args) + ")"
 	}
-	panic(dumpErr{fmt.Sprintf("AST node of type %T", a)})
+	panic(c01DumpErr{fmt.Sprintf("AST node of type %T", a)})
 }
 
-// parseOff: the real parser (optimizer off) exactly as generateIntern calls it
-func parseOff(text string, names []string) (term string, parseErr error, unsupported string) {
+// c01ParseOff: the real parser (optimizer off) exactly as generateIntern calls it
+func c01ParseOff(text string, names []string) (term string, parseErr error, unsupported string) {
 	defer func() {
 		if r := recover(); r != nil {
-			if d, ok := r.(dumpErr); ok {
+			if d, ok := r.(c01DumpErr); ok {
 				unsupported = d.what
 				return
 			}
@@ -135,12 +137,12 @@ func parseOff(text string, names []string) (term string, parseErr error, unsuppo
 	if err != nil {
 		return "", err, ""
 	}
-	return dumpAst(ast), nil, ""
+	return c01DumpAst(ast), nil, ""
 }
 
 // ---------- canonical observation of the implementation ----------
 
-type implOut struct {
+type c01ImplOut struct {
 	Kind  string // val err generr
 	Coq   string // Coq term of type Obs.iout
 	Canon string // canonical text for the Go-side comparison (errors: "error")
@@ -148,7 +150,7 @@ type implOut struct {
 	Human string
 }
 
-func errOut(kind string, err error) implOut {
+func c01ErrOut(kind string, err error) c01ImplOut {
 	msg := err.Error()
 	rs := []rune(msg)
 	if len(rs) > 3000 {
@@ -162,24 +164,24 @@ func errOut(kind string, err error) implOut {
 	if len(short) > 300 {
 		short = short[:300] + "..."
 	}
-	if !keepMessages {
+	if !c01KeepMessages {
 		rs = nil // the text is only needed where a text passed through throw has to be found in it
 	}
-	return implOut{Kind: kind, Coq: "(" + ctor + " " + CoqRunes(rs) + ")", Canon: "error", Msg: msg, Human: kind + ": " + short}
+	return c01ImplOut{Kind: kind, Coq: "(" + ctor + " " + CoqRunes(rs) + ")", Canon: "error", Msg: msg, Human: kind + ": " + short}
 }
 
-// canon forces v deeply; returns the Coq oval term and a canonical text
-func canon(v value.Value) (string, string, error) {
+// c01Canon forces v deeply; returns the Coq oval term and a canonical text
+func c01Canon(v value.Value) (string, string, error) {
 	switch c := v.(type) {
 	case value.Int:
-		return "(OInt " + coqZ(int64(c)) + ")", fmt.Sprintf("i%d", int64(c)), nil
+		return "(OInt " + pgCoqZ(int64(c)) + ")", fmt.Sprintf("i%d", int64(c)), nil
 	case value.Float:
 		f := float64(c)
 		key := fmt.Sprintf("f%016x", math.Float64bits(f))
 		if math.IsNaN(f) {
 			key = "fNaN"
 		}
-		return "(OFloat " + coqFloat(f) + ")", key, nil
+		return "(OFloat " + pgCoqFloat(f) + ")", key, nil
 	case value.String:
 		return "(OStr " + CoqStr(string(c)) + ")", fmt.Sprintf("s%q", string(c)), nil
 	case value.Bool:
@@ -191,7 +193,7 @@ func canon(v value.Value) (string, string, error) {
 		}
 		var cs, ks []string
 		for _, it := range sl {
-			t, k, err := canon(it)
+			t, k, err := c01Canon(it)
 			if err != nil {
 				return "", "", err
 			}
@@ -212,7 +214,7 @@ func canon(v value.Value) (string, string, error) {
 		sort.SliceStable(es, func(i, j int) bool { return es[i].k < es[j].k })
 		var cs, ks []string
 		for _, e := range es {
-			t, k, err := canon(e.v)
+			t, k, err := c01Canon(e.v)
 			if err != nil {
 				return "", "", err
 			}
@@ -226,29 +228,29 @@ func canon(v value.Value) (string, string, error) {
 	return "OOther", fmt.Sprintf("other(%T)", v), nil
 }
 
-func evalForced(f funcGen.Func[value.Value], args []value.Value) (out implOut) {
+func c01EvalForced(f funcGen.Func[value.Value], args []value.Value) (out c01ImplOut) {
 	defer func() {
 		if r := recover(); r != nil {
-			out = errOut("err", fmt.Errorf("panic while forcing the result: %v", r))
+			out = c01ErrOut("err", fmt.Errorf("panic while forcing the result: %v", r))
 		}
 	}()
 	v, err := f.Eval(args...)
 	if err != nil {
-		return errOut("err", err)
+		return c01ErrOut("err", err)
 	}
-	t, k, err := canon(v)
+	t, k, err := c01Canon(v)
 	if err != nil {
-		return errOut("err", err)
+		return c01ErrOut("err", err)
 	}
 	h := k
 	if len(h) > 200 {
 		h = h[:200] + "..."
 	}
-	return implOut{Kind: "val", Coq: "(IVal " + t + ")", Canon: k, Human: h}
+	return c01ImplOut{Kind: "val", Coq: "(IVal " + t + ")", Canon: k, Human: h}
 }
 
-func runImpl(fg *value.FunctionGenerator, text string, names []string, tuples [][]*Tree) []implOut {
-	res := make([]implOut, len(tuples))
+func c01RunImpl(fg *value.FunctionGenerator, text string, names []string, tuples [][]*Tree) []c01ImplOut {
+	res := make([]c01ImplOut, len(tuples))
 	var f funcGen.Func[value.Value]
 	var gerr error
 	func() {
@@ -261,42 +263,42 @@ func runImpl(fg *value.FunctionGenerator, text string, names []string, tuples []
 	}()
 	for i, tu := range tuples {
 		if gerr != nil {
-			res[i] = errOut("generr", gerr)
+			res[i] = c01ErrOut("generr", gerr)
 			continue
 		}
 		args := make([]value.Value, len(tu))
 		for j, a := range tu {
 			args[j] = a.Build()
 		}
-		res[i] = evalForced(f, args)
+		res[i] = c01EvalForced(f, args)
 	}
 	return res
 }
 
 // optimizer on = optimizer off, floats up to rounding (regrouped constant operands)
-func sameOutcome(a, b implOut) bool {
+func c01SameOutcome(a, b c01ImplOut) bool {
 	if (a.Kind == "val") != (b.Kind == "val") {
 		return false
 	}
 	if a.Kind != "val" || a.Canon == b.Canon {
 		return true
 	}
-	return floatTolerantEq(a.Canon, b.Canon)
+	return c01FloatTolerantEq(a.Canon, b.Canon)
 }
 
 // canonical texts equal except for float payloads that differ by rounding
-func floatTolerantEq(a, b string) bool {
-	ta, tb := splitFloats(a), splitFloats(b)
-	if len(ta) != len(tb) {
+func c01FloatTolerantEq(a, b string) bool {
+	ta, c01Tb := c01SplitFloats(a), c01SplitFloats(b)
+	if len(ta) != len(c01Tb) {
 		return false
 	}
 	diff := false
 	for i := range ta {
-		if ta[i] == tb[i] {
+		if ta[i] == c01Tb[i] {
 			continue
 		}
-		fa, oka := parseFloatKey(ta[i])
-		fb, okb := parseFloatKey(tb[i])
+		fa, oka := c01ParseFloatKey(ta[i])
+		fb, okb := c01ParseFloatKey(c01Tb[i])
 		if !oka || !okb {
 			return false
 		}
@@ -308,14 +310,14 @@ func floatTolerantEq(a, b string) bool {
 	return diff
 }
 
-func splitFloats(s string) []string {
+func c01SplitFloats(s string) []string {
 	var res []string
 	for {
 		i := strings.Index(s, "f")
 		if i < 0 || i+17 > len(s) {
 			return append(res, s)
 		}
-		if _, ok := parseFloatKey(s[i : i+17]); !ok {
+		if _, ok := c01ParseFloatKey(s[i : i+17]); !ok {
 			res = append(res, s[:i+1])
 			s = s[i+1:]
 			continue
@@ -325,7 +327,7 @@ func splitFloats(s string) []string {
 	}
 }
 
-func parseFloatKey(k string) (float64, bool) {
+func c01ParseFloatKey(k string) (float64, bool) {
 	if len(k) != 17 || k[0] != 'f' {
 		return 0, false
 	}
@@ -338,7 +340,7 @@ func parseFloatKey(k string) (float64, bool) {
 
 // ---------- one case ----------
 
-func humanValue(t *Tree) any {
+func c01HumanValue(t *Tree) any {
 	switch t.Kind {
 	case "float":
 		return fmt.Sprintf("%v (float)", t.F)
@@ -347,15 +349,15 @@ func humanValue(t *Tree) any {
 }
 
 type c01Run struct {
-	sum    *Summary
-	cw     *CaseWriter
-	texts  map[string]bool
-	okProg int
-	errOut int
-	allOut int
+	sum     *Summary
+	cw      *CaseWriter
+	texts   map[string]bool
+	okProg  int
+	errOuts int
+	allOut  int
 }
 
-func signatureOf(p *Program, optDiff bool, shapes map[string]bool) string {
+func c01SignatureOf(p *pgProgram, optDiff bool, shapes map[string]bool) string {
 	var keys []string
 	for k := range shapes {
 		if (strings.Contains(k, " in argument") || strings.Contains(k, "literal element")) && !strings.HasPrefix(k, "binder in") {
@@ -373,22 +375,25 @@ func signatureOf(p *Program, optDiff bool, shapes map[string]bool) string {
 	return s
 }
 
-func (r *c01Run) runCase(p *Program, id int) {
+func (r *c01Run) runCase(p *pgProgram, id int) {
 	sum := r.sum
-	text := p.T.Render(posLet)
-	term, perr, unsupported := parseOff(text, p.ArgNames)
+	text := p.T.Render(pgPosLet)
+	if os.Getenv("P2H_TRACE") != "" {
+		fmt.Fprintf(os.Stderr, "case %d: %s\n", id, text)
+	}
+	term, perr, unsupported := c01ParseOff(text, p.ArgNames)
 	if unsupported != "" {
 		sum.Skipped["ast-dump-unsupported: "+unsupported]++
 		return
 	}
-	keepMessages = false
-	p.T.Walk(func(x *Node) {
+	c01KeepMessages = false
+	p.T.Walk(func(x *pgNode) {
 		if x.K == "ident" && x.Name == "throw" {
-			keepMessages = true
+			c01KeepMessages = true
 		}
 	})
-	off := runImpl(fgOff, text, p.ArgNames, p.Tuples)
-	on := runImpl(fgOn, text, p.ArgNames, p.Tuples)
+	off := c01RunImpl(fgOff, text, p.ArgNames, p.Tuples)
+	on := c01RunImpl(c01FgOn, text, p.ArgNames, p.Tuples)
 	sum.Evaluations++
 
 	shapes := p.T.shapes(c01Statics)
@@ -400,10 +405,10 @@ func (r *c01Run) runCase(p *Program, id int) {
 	sum.Count("stream", p.Stream)
 	sum.Count("nodes", bucket(nodes))
 	sum.Count("arguments", fmt.Sprint(len(p.ArgNames)))
-	p.T.Walk(func(x *Node) {
+	p.T.Walk(func(x *pgNode) {
 		k := x.K
 		if x.K == "call" || x.K == "method" {
-			k = x.K + ":" + callKind(x, c01Statics)
+			k = x.K + ":" + pgCallKind(x, c01Statics)
 		}
 		sum.Count("constructs", k)
 		if x.K == "op" || x.K == "unary" {
@@ -435,9 +440,9 @@ func (r *c01Run) runCase(p *Program, id int) {
 		sum.Count("outcome_optimizer_off", off[i].Kind)
 		sum.Count("outcome_optimizer_on", on[i].Kind)
 		if off[i].Kind != "val" {
-			r.errOut++
+			r.errOuts++
 		}
-		if !sameOutcome(off[i], on[i]) {
+		if !c01SameOutcome(off[i], on[i]) {
 			optDiff = true
 		}
 		distinctObs[off[i].Canon] = true
@@ -451,13 +456,13 @@ func (r *c01Run) runCase(p *Program, id int) {
 	}
 
 	// ---- distinct non-trivial
-	structural := shapes["binder in call argument"] || shapes["binder in literal element"] || closureDepth(p.T) >= 2
+	structural := shapes["binder in call argument"] || shapes["binder in literal element"] || pgClosureDepth(p.T) >= 2
 	if off[0].Kind != "generr" && structural && len(distinctObs) > 1 {
 		sum.Nontriv(text)
 	}
 
 	// ---- the case for Coq
-	sig := signatureOf(p, optDiff, shapes)
+	sig := c01SignatureOf(p, optDiff, shapes)
 	var tuples []string
 	var hargs []any
 	var hoff, hon []string
@@ -466,7 +471,7 @@ func (r *c01Run) runCase(p *Program, id int) {
 		ha := map[string]any{}
 		for j, a := range tu {
 			vals[j] = a.CoqValue()
-			ha[p.ArgNames[j]] = humanValue(a)
+			ha[p.ArgNames[j]] = c01HumanValue(a)
 		}
 		hargs = append(hargs, ha)
 		hoff = append(hoff, off[i].Human)
@@ -488,13 +493,13 @@ func (r *c01Run) runCase(p *Program, id int) {
 		sum.Sample(map[string]any{"text": text, "args": hargs, "implementation_optimizer_off": hoff})
 	}
 	bound := append([]string{}, p.ArgNames...)
-	r.cw.Add(fmt.Sprintf("(%d, %s,\n  %s,\n  %s, (%s, %s),\n  %s)", id, p.T.CoqT(bound, c01Statics), aTerm, coqNames(p.ArgNames),
+	r.cw.Add(fmt.Sprintf("(%d, %s,\n  %s,\n  %s, (%s, %s),\n  %s)", id, p.T.CoqT(bound, c01Statics), aTerm, pgCoqNames(p.ArgNames),
 		CoqBool(lazy), CoqBool(excl), CoqList(tuples)))
 
 	// ---- Go-side oracle: the optimizer is unobservable
 	if optDiff && !excl {
 		for i := range off {
-			if !sameOutcome(off[i], on[i]) {
+			if !c01SameOutcome(off[i], on[i]) {
 				sum.GoViolations = append(sum.GoViolations, GoViolation{CaseID: id,
 					What: "outcome with the default optimizer differs from the outcome with SetOptimizer(nil)",
 					Sig:  sig, Human: human, Expected: "optimizer off: " + off[i].Human, Observed: "optimizer on: " + on[i].Human})
@@ -506,53 +511,57 @@ func (r *c01Run) runCase(p *Program, id int) {
 
 // ---------- corpus: inputs that were real defects ----------
 
-func tup(vals ...*Tree) []*Tree { return vals }
-func ti(i int) *Tree            { return &Tree{Kind: "int", I: i} }
-func tb(b bool) *Tree           { return &Tree{Kind: "bool", B: b} }
-func ts(s string) *Tree         { return &Tree{Kind: "str", S: s} }
+func c01Tup(vals ...*Tree) []*Tree { return vals }
+func c01Ti(i int) *Tree            { return &Tree{Kind: "int", I: i} }
+func c01Tb(b bool) *Tree           { return &Tree{Kind: "bool", B: b} }
+func c01Ts(s string) *Tree         { return &Tree{Kind: "str", S: s} }
 
-func c01Corpus() []*Program {
-	x := func() *Node { return nId("x") }
-	ints := [][]*Tree{tup(ti(5)), tup(ti(1)), tup(ti(-7))}
-	mk := func(t *Node, tuples [][]*Tree) *Program {
-		return &Program{T: t, ArgNames: []string{"x"}, Tuples: tuples, Stream: "corpus"}
+func c01Corpus() []*pgProgram {
+	x := func() *pgNode { return pgNId("x") }
+	ints := [][]*Tree{c01Tup(c01Ti(5)), c01Tup(c01Ti(1)), c01Tup(c01Ti(-7))}
+	mk := func(t *pgNode, tuples [][]*Tree) *pgProgram {
+		return &pgProgram{T: t, ArgNames: []string{"x"}, Tuples: tuples, Stream: "corpus"}
 	}
-	ab := nOp("+", nOp("*", nId("a"), nInt(100)), nId("b"))
-	lety := func() *Node { return nLet("y", nOp("+", x(), nInt(1)), nId("y")) }
-	return []*Program{
+	ab := pgNOp("+", pgNOp("*", pgNId("a"), pgNInt(100)), pgNId("b"))
+	lety := func() *pgNode { return pgNLet("y", pgNOp("+", x(), pgNInt(1)), pgNId("y")) }
+	return []*pgProgram{
 		// func f(a,b) a*100+b; f(x, let y=x+1; y)
-		mk(nFunc("f", []string{"a", "b"}, ab, nCall("closure", nId("f"), x(), lety())), ints),
+		mk(pgNFunc("f", []string{"a", "b"}, ab, pgNCall("closure", pgNId("f"), x(), lety())), ints),
 		// "ab".replace("a", let y=x; y)
-		mk(nMethod("method", nStr("ab"), "replace", nStr("a"), nLet("y", x(), nId("y"))), [][]*Tree{tup(ts("Q")), tup(ts("")), tup(ts("zz"))}),
+		mk(pgNMethod("method", pgNStr("ab"), "replace", pgNStr("a"), pgNLet("y", x(), pgNId("y"))), [][]*Tree{c01Tup(c01Ts("Q")), c01Tup(c01Ts("")), c01Tup(c01Ts("zz"))}),
 		// let m={f:(a,b)->a*100+b}; m.f(x, let y=x+1; y)
-		mk(nLet("m", nMap([]string{"f"}, []*Node{nClo([]string{"a", "b"}, ab)}), nMethod("mapfield", nId("m"), "f", x(), lety())), ints),
+		mk(pgNLet("m", pgNMap([]string{"f"}, []*pgNode{pgNClo([]string{"a", "b"}, ab)}), pgNMethod("mapfield", pgNId("m"), "f", x(), lety())), ints),
 		// let sin = y->y+100; sin(x)
-		mk(nLet("sin", nClo([]string{"y"}, nOp("+", nId("y"), nInt(100))), nCall("closure", nId("sin"), x())), ints),
+		mk(pgNLet("sin", pgNClo([]string{"y"}, pgNOp("+", pgNId("y"), pgNInt(100))), pgNCall("closure", pgNId("sin"), x())), ints),
 		// [[1]]=[[x-4]]
-		mk(nOp("=", nList(nList(nInt(1))), nList(nList(nOp("-", x(), nInt(4))))), ints),
+		mk(pgNOp("=", pgNList(pgNList(pgNInt(1))), pgNList(pgNList(pgNOp("-", x(), pgNInt(4))))), ints),
 		// 3&x
-		mk(nOp("&", nInt(3), x()), ints),
+		mk(pgNOp("&", pgNInt(3), x()), ints),
 		// (x=1)=1 with x=true
-		mk(nOp("=", nOp("=", x(), nInt(1)), nInt(1)), [][]*Tree{tup(tb(true)), tup(ti(1)), tup(ti(2))}),
+		mk(pgNOp("=", pgNOp("=", x(), pgNInt(1)), pgNInt(1)), [][]*Tree{c01Tup(c01Tb(true)), c01Tup(c01Ti(1)), c01Tup(c01Ti(2))}),
 		// (false|x)|true
-		mk(nOp("|", nOp("|", nId("false"), x()), nId("true")), [][]*Tree{tup(ti(5)), tup(tb(true)), tup(tb(false))}),
+		mk(pgNOp("|", pgNOp("|", pgNId("false"), x()), pgNId("true")), [][]*Tree{c01Tup(c01Ti(5)), c01Tup(c01Tb(true)), c01Tup(c01Tb(false))}),
 		// try x%0 catch 7
-		mk(nTry(nOp("%", x(), nInt(0)), nInt(7)), ints),
+		mk(pgNTry(pgNOp("%", x(), pgNInt(0)), pgNInt(7)), ints),
 		// method-call arguments: [10,20].mapReduce(x, (a,b)->a+b) with a let in the second argument's position
-		mk(nMethod("method", nList(nInt(10), nInt(20)), "mapReduce", lety(), nClo([]string{"a", "b"}, nOp("+", nId("a"), nId("b")))), ints),
+		mk(pgNMethod("method", pgNList(pgNInt(10), pgNInt(20)), "mapReduce", lety(), pgNClo([]string{"a", "b"}, pgNOp("+", pgNId("a"), pgNId("b")))), ints),
 		// three closure levels capturing an argument, a let and an outer captured value
-		mk(nLet("p", nOp("*", x(), nInt(2)), nCall("closure", nCall("closure", nCall("closure",
-			nClo([]string{"a"}, nClo([]string{"b"}, nClo([]string{"c"}, nOp("+", nOp("+", nOp("+", nId("a"), nId("b")), nOp("+", nId("c"), nId("p"))), x())))),
-			nInt(1)), nLet("q", nOp("+", x(), nInt(1)), nId("q"))), nInt(3))), ints),
+		mk(pgNLet("p", pgNOp("*", x(), pgNInt(2)), pgNCall("closure", pgNCall("closure", pgNCall("closure",
+			pgNClo([]string{"a"}, pgNClo([]string{"b"}, pgNClo([]string{"c"}, pgNOp("+", pgNOp("+", pgNOp("+", pgNId("a"), pgNId("b")), pgNOp("+", pgNId("c"), pgNId("p"))), x())))),
+			pgNInt(1)), pgNLet("q", pgNOp("+", x(), pgNInt(1)), pgNId("q"))), pgNInt(3))), ints),
 		// recursion
-		mk(nFunc("fac", []string{"n"}, nIf(nOp("<=", nId("n"), nInt(0)), nInt(1), nOp("*", nId("n"), nCall("closure", nId("fac"), nOp("-", nId("n"), nInt(1))))),
-			nCall("closure", nId("fac"), nOp("%", x(), nInt(6)))), ints),
+		mk(pgNFunc("fac", []string{"n"}, pgNIf(pgNOp("<=", pgNId("n"), pgNInt(0)), pgNInt(1), pgNOp("*", pgNId("n"), pgNCall("closure", pgNId("fac"), pgNOp("-", pgNId("n"), pgNInt(1))))),
+			pgNCall("closure", pgNId("fac"), pgNOp("%", x(), pgNInt(6)))), ints),
 	}
 }
 
 // ---------- command ----------
 
 func cmdC01(seed int64, tier, outDir string) {
+	// safety net: a generated program must never take the machine down (address space limit 24 GiB;
+	// exceeding it ends the harness with a fatal error = infrastructure failure, not a verdict)
+	lim := syscall.Rlimit{Cur: 24 << 30, Max: 24 << 30}
+	_ = syscall.Setrlimit(syscall.RLIMIT_AS, &lim)
 	c01Setup()
 	n, maxNodes := 1500, 40
 	if tier == "thorough" {
@@ -567,7 +576,7 @@ func cmdC01(seed int64, tier, outDir string) {
 		cw.Flush()
 		sum.CaseFiles = cw.files
 		if run.allOut > 0 {
-			share := float64(run.errOut) / float64(run.allOut)
+			share := float64(run.errOuts) / float64(run.allOut)
 			sum.Extra["error_outcome_share"] = math.Round(share*1000) / 1000
 			sum.Extra["degraded"] = share > 0.30
 		}
@@ -579,7 +588,7 @@ func cmdC01(seed int64, tier, outDir string) {
 		sum.Write(outDir)
 	}
 	if optReplay != "" {
-		var p Program
+		var p pgProgram
 		if err := json.Unmarshal(loadReplayCase(), &p); err != nil {
 			fatal("replay case: %v", err)
 		}
@@ -598,7 +607,7 @@ func cmdC01(seed int64, tier, outDir string) {
 	r := NewRng(seed)
 	for i := 0; i < n; i++ {
 		id++
-		run.runCase(GenProgram(r, c01Statics, maxNodes), id)
+		run.runCase(pgGenProgram(r, c01Statics, maxNodes), id)
 	}
 	finish()
 }
